@@ -20,7 +20,8 @@ package drummer
 // Unexported identifiers used: newDrummerServer, (*server).setDeploymentID,
 // getSession, getSchedulerContext, Drummer{nh, server, sessionUser, ctx} literal
 // with (*Drummer).tick / updateRequests (the Drummer's own, non-client updates),
-// sessionUser, defaultShardID, nodeHostTTL, tickIntervalSecond, launchDeadlineTick.
+// sessionUser, defaultShardID, nodeHostTTL, tickIntervalSecond, launchDeadlineTick,
+// (*server).getBootstrapped, raftOpTimeoutMillisecond (package variable, set for the duration of one faulted call).
 //
 // Case grammar (VERIF_IN):
 //   CASE <name> <mem|dir>
